@@ -796,7 +796,7 @@ func (dru *dirRepoUpload) Write(p []byte) (int, error) {
 	dru.mu.Lock()
 	defer dru.mu.Unlock()
 	if dru.w == nil {
-		return 0, fmt.Errorf("writer is closed")
+		return 0, fmt.Errorf("writer is closed%.0w", types.ErrNotFound)
 	}
 	// verify session still exists and update last write time
 	if _, err := dru.dr.uploads.Get(dru.sessionID); err != nil {
@@ -811,6 +811,9 @@ func (dru *dirRepoUpload) Write(p []byte) (int, error) {
 func (dru *dirRepoUpload) Close() error {
 	dru.mu.Lock()
 	defer dru.mu.Unlock()
+	if dru.fh == nil {
+		return fmt.Errorf("upload session was canceled %s%.0w", dru.sessionID, types.ErrNotFound)
+	}
 	err := dru.fh.Close()
 	if err != nil {
 		return errors.Join(err, os.Remove(dru.filename))
@@ -924,6 +927,9 @@ func (dru *dirRepoUpload) Verify(expect digest.Digest) error {
 		return fmt.Errorf("invalid digest: %w", err)
 	}
 	if dru.d.Digest().Algorithm() != expect.Algorithm() {
+		if dru.fh == nil {
+			return fmt.Errorf("upload session was canceled %s%.0w", dru.sessionID, types.ErrNotFound)
+		}
 		// rescan content on algorithm change
 		dru.d = expect.Algorithm().Digester()
 		dru.w = io.MultiWriter(dru.fh, dru.d.Hash())
